@@ -739,28 +739,28 @@ Proof.
   replace (b - a <? 0) with false; [reflexivity|]. symmetry; apply Z.ltb_ge; lia.
 Qed.
 
-Lemma impl_form c xs s dv de dsc :
+Lemma impl_form bs c xs s dv de dsc :
   bad_opts c = false -> prep c = inr (s, dv, de) -> mono dsc de = true -> (2 <= length de)%nat ->
   let xs' := map (Z.mul s) xs in
-  let cells := map (cell_one (c_m c) (c_c c) (c_lnan c) (c_rnan c) dsc dv de) xs' in
+  let cells := map (cell_gen bs (c_m c) (c_c c) (c_lnan c) (c_rnan c) dsc dv de) xs' in
   let out := existsb (fun x => (x <? lo_of dsc de) || (hi_of dsc de <? x)) xs' in
-  impl_val2idx c xs =
+  impl_val2idx_gen bs c xs =
   match c_b c with
   | BError => if out then Raised EOutOfBounds else Done cells false dv
   | BWarn => Done cells out dv
   | _ => Done cells false dv
   end.
 Proof.
-  intros Hb Hp Hm Hl. unfold impl_val2idx. rewrite Hb, Hp. destruct dsc; cbn [mono lo_of hi_of] in *.
+  intros Hb Hp Hm Hl. unfold impl_val2idx_gen. rewrite Hb, Hp. destruct dsc; cbn [mono lo_of hi_of] in *.
   - unfold desc in Hm. rewrite Hm. unfold is_out. rewrite hd_rev, last_rev. reflexivity.
   - rewrite (asc_not_all_neg _ Hm Hl). unfold asc in Hm. rewrite Hm. reflexivity.
 Qed.
 
 (* the call never changes the coordinate variable *)
-Lemma coord_unchanged c xs r w co :
-  impl_val2idx c xs = Done r w co -> co = map (Z.mul (scale_of c)) (c_cs c).
+Lemma coord_unchanged bs c xs r w co :
+  impl_val2idx_gen bs c xs = Done r w co -> co = map (Z.mul (scale_of c)) (c_cs c).
 Proof.
-  unfold impl_val2idx, prep, scale_of, derive_edges.
+  unfold impl_val2idx_gen, prep, scale_of, derive_edges.
   destruct (bad_opts c); [discriminate|].
   assert (Hid : map (Z.mul 1) (c_cs c) = c_cs c).
   { induction (c_cs c) as [|a l IH]; cbn [map]; [reflexivity|]. rewrite IH. f_equal. lia. }
@@ -768,7 +768,7 @@ Proof.
      (let d := diffs de in
       let run := fun dsc : bool =>
         let xs' := map (Z.mul s) xs in
-        let cells := map (cell_one (c_m c) (c_c c) (c_lnan c) (c_rnan c) dsc dv de) xs' in
+        let cells := map (cell_gen bs (c_m c) (c_c c) (c_lnan c) (c_rnan c) dsc dv de) xs' in
         let out := existsb (is_out (if dsc then rev de else de)) xs' in
         match c_b c with
         | BError => if out then Raised EOutOfBounds else Done cells false dv
@@ -817,3 +817,132 @@ Proof.
   destruct (diffs cs) as [|d0 d]; [congruence|].
   destruct (uniform (d0 :: d)); reflexivity.
 Qed.
+
+(* ==== the searchsorted variant of the bounds path ============================================ *)
+Lemma brk_cons3 x x0 x1 x2 t k :
+  brk x (x0 :: x1 :: x2 :: t) k = if x <? x1 then k else brk x (x1 :: x2 :: t) (k + 1).
+Proof. reflexivity. Qed.
+
+Lemma brk_spec : forall xp k x, asc xp = true -> (2 <= length xp)%nat -> hd 0 xp <= x <= last xp 0 ->
+  exists i, brk x xp k = k + Z.of_nat i /\ (S i < length xp)%nat /\ nth i xp 0 <= x <= nth (S i) xp 0.
+Proof.
+  induction xp as [|x0 t IH]; intros k x Ha Hl Hx; [simpl in Hl; lia|].
+  destruct t as [|x1 t]; [simpl in Hl; lia|].
+  destruct t as [|x2 t].
+  - exists 0%nat. cbn [brk nth length hd last] in *. repeat split; lia.
+  - rewrite brk_cons3. apply asc_cons in Ha as [H01 Ha]. destruct (x <? x1) eqn:E.
+    + apply Z.ltb_lt in E. exists 0%nat. cbn [nth length hd] in *. repeat split; lia.
+    + apply Z.ltb_ge in E. rewrite last_cons2 in Hx.
+      destruct (IH (k + 1) x Ha ltac:(cbn [length]; lia) ltac:(cbn [hd]; lia)) as (i & Hb & Hi & Hn).
+      exists (S i). rewrite Hb. cbn [nth length] in *. repeat split; lia.
+Qed.
+
+Lemma cell_gen_false m cm lnan rnan dsc dv de x :
+  cell_gen false m cm lnan rnan dsc dv de x = cell_one m cm lnan rnan dsc dv de x.
+Proof. reflexivity. Qed.
+
+Lemma cell_gen_nobounds bs m cm lnan rnan dsc dv de x : is_bounds m = false ->
+  cell_gen bs m cm lnan rnan dsc dv de x = cell_one m cm lnan rnan dsc dv de x.
+Proof. intros H. unfold cell_gen, cell_one, fidx_srch. rewrite H. destruct bs; reflexivity. Qed.
+
+Lemma cell_gen_out m cm lnan rnan (dsc : bool) (dv de : list Z) x :
+  (x < hd 0 (if dsc then rev de else de) \/ last (if dsc then rev de else de) 0 < x) ->
+  cell_gen true m cm lnan rnan dsc dv de x = cell_one m cm lnan rnan dsc dv de x.
+Proof.
+  intros H. unfold cell_gen, cell_one, fidx_srch.
+  replace ((hd 0 (if dsc then rev de else de) <=? x) && (x <=? last (if dsc then rev de else de) 0)) with false.
+  - rewrite andb_false_r. reflexivity.
+  - symmetry. apply andb_false_iff. destruct H; [left; apply Z.leb_gt | right; apply Z.leb_gt]; lia.
+Qed.
+
+Lemma bounds_asc_srch cm lnan rnan dv es x :
+  asc es = true -> length es = S (length dv) -> (0 < length dv)%nat ->
+  match cell_gen true MBounds cm lnan rnan false dv es x with
+  | Idx i => contains (pairs es) x i = true
+       \/ (x < hd 0 es /\ lnan = false /\ i = 0)
+       \/ (last es 0 < x /\ rnan = false /\ i = lenZ dv - 1)
+       \/ (i = INT_MIN /\ cm <> CMask /\ nan_out lnan rnan (hd 0 es) (last es 0) x)
+  | Masked => cm = CMask /\ nan_out lnan rnan (hd 0 es) (last es 0) x
+  end.
+Proof.
+  intros Ha Hlen Hdv.
+  destruct (Z_lt_ge_dec x (hd 0 es)) as [Ho | Hlo];
+    [rewrite cell_gen_out by (left; exact Ho); apply bounds_asc; auto|].
+  destruct (Z_lt_ge_dec (last es 0) x) as [Ho | Hhi];
+    [rewrite cell_gen_out by (right; exact Ho); apply bounds_asc; auto|].
+  unfold cell_gen, fidx_srch, to_cell, lenZ. cbn [is_bounds is_exact andb].
+  replace ((hd 0 es <=? x) && (x <=? last es 0)) with true
+    by (symmetry; apply andb_true_iff; split; apply Z.leb_le; lia).
+  destruct (brk_spec es 0 x Ha ltac:(lia) ltac:(lia)) as (i & Hb & Hi & Hn).
+  rewrite Hb. cbn [Z.add]. left. rewrite Z.quot_1_r.
+  fold (cidx (Z.of_nat (length dv) - 1) (length es)). unfold nthZ.
+  replace (Z.to_nat (Z.of_nat i + 1)) with (S i) by lia. rewrite Nat2Z.id.
+  rewrite !nth_cidx by lia.
+  replace (Z.min (Z.min (Z.of_nat (length dv) - 1) (Z.of_nat i)) (Z.min (Z.of_nat (length dv) - 1) (Z.of_nat (S i))))
+    with (Z.of_nat i) by lia.
+  apply contains_intro; auto.
+Qed.
+
+Lemma bounds_desc_srch cm lnan rnan dv es x :
+  desc es = true -> length es = S (length dv) -> (0 < length dv)%nat ->
+  match cell_gen true MBounds cm lnan rnan true dv es x with
+  | Idx i => contains (pairs es) x i = true
+       \/ (x < last es 0 /\ lnan = false /\ i = lenZ dv - 1)
+       \/ (hd 0 es < x /\ rnan = false /\ i = 0)
+       \/ (i = INT_MIN /\ cm <> CMask /\ nan_out lnan rnan (last es 0) (hd 0 es) x)
+  | Masked => cm = CMask /\ nan_out lnan rnan (last es 0) (hd 0 es) x
+  end.
+Proof.
+  intros Hd Hlen Hdv.
+  destruct (Z_lt_ge_dec x (last es 0)) as [Ho | Hlo];
+    [rewrite cell_gen_out by (left; rewrite hd_rev; exact Ho); apply bounds_desc; auto|].
+  destruct (Z_lt_ge_dec (hd 0 es) x) as [Ho | Hhi];
+    [rewrite cell_gen_out by (right; rewrite last_rev; exact Ho); apply bounds_desc; auto|].
+  pose proof (desc_rev_asc _ Hd) as Ha.
+  unfold cell_gen, fidx_srch, to_cell, lenZ. cbn [is_bounds is_exact andb].
+  rewrite hd_rev, last_rev.
+  replace ((last es 0 <=? x) && (x <=? hd 0 es)) with true
+    by (symmetry; apply andb_true_iff; split; apply Z.leb_le; lia).
+  destruct (brk_spec (rev es) 0 x Ha ltac:(rewrite rev_length; lia) ltac:(rewrite hd_rev, last_rev; lia))
+    as (i & Hb & Hi & Hn).
+  rewrite rev_length in Hi. rewrite Hb. cbn [Z.add]. left. rewrite Z.quot_1_r.
+  fold (cidx (Z.of_nat (length dv) - 1) (length es)). unfold nthZ.
+  replace (Z.to_nat (Z.of_nat i + 1)) with (S i) by lia. rewrite Nat2Z.id.
+  rewrite !rev_nth by (rewrite cidx_length; lia). rewrite cidx_length, !nth_cidx by lia.
+  replace (Z.min (Z.min (Z.of_nat (length dv) - 1) (Z.of_nat (length es - S i)))
+                 (Z.min (Z.of_nat (length dv) - 1) (Z.of_nat (length es - S (S i)))))
+    with (Z.of_nat (length es) - 2 - Z.of_nat i) by lia.
+  apply contains_rev; auto.
+Qed.
+
+(* both variants, both directions *)
+Lemma bounds_gen bs dsc cm lnan rnan dv es x :
+  mono dsc es = true -> length es = S (length dv) -> (0 < length dv)%nat ->
+  match cell_gen bs MBounds cm lnan rnan dsc dv es x with
+  | Idx i => contains (pairs es) x i = true
+       \/ (x < lo_of dsc es /\ lnan = false /\ i = (if dsc then lenZ dv - 1 else 0))
+       \/ (hi_of dsc es < x /\ rnan = false /\ i = (if dsc then 0 else lenZ dv - 1))
+       \/ (i = INT_MIN /\ cm <> CMask /\ nan_out lnan rnan (lo_of dsc es) (hi_of dsc es) x)
+  | Masked => cm = CMask /\ nan_out lnan rnan (lo_of dsc es) (hi_of dsc es) x
+  end.
+Proof.
+  destruct bs; [|rewrite cell_gen_false; apply bounds_both].
+  destruct dsc; cbn [mono lo_of hi_of]; [apply bounds_desc_srch | apply bounds_asc_srch].
+Qed.
+
+Lemma nearest_gen bs dsc cm lnan rnan cs de x :
+  mono dsc cs = true -> cs <> [] ->
+  match cell_gen bs MNearest cm lnan rnan dsc cs de x with
+  | Idx i => nearest_ok cs x i = true
+             \/ (i = INT_MIN /\ cm <> CMask /\ nan_out lnan rnan (lo_of dsc cs) (hi_of dsc cs) x)
+  | Masked => cm = CMask /\ nan_out lnan rnan (lo_of dsc cs) (hi_of dsc cs) x
+  end.
+Proof. rewrite cell_gen_nobounds by reflexivity. apply nearest_both. Qed.
+
+Lemma exact_gen bs dsc cm lnan rnan cs de x :
+  mono dsc cs = true -> cs <> [] ->
+  match cell_gen bs MExact cm lnan rnan dsc cs de x with
+  | Idx i => exact_ok cs x i = true
+  | Masked => memZ x cs = false
+  end.
+Proof. rewrite cell_gen_nobounds by reflexivity. apply exact_both. Qed.
